@@ -10,6 +10,12 @@ What is compared (all through the model's own ops, answered by driver_C07 in one
            contain NUL (they split into extra parts), `--sort` expressions, huge `{index}` references
   analyze  -x -q ...   = final state of `agg numfv` (software binary64): Samples, Mean, StdDev, Min, Max, Median,
            Mode and the quantiles (p = q/100), formatted with FormatFloat(x,'f',4) (`--noformat`)
+  analyze  (live) the same command reading STDIN in several chunks with pauses longer than the 100 ms refresh of
+           RunAggregationLoop (`--batch 1`, so every line reaches the aggregator at once): Analyze() runs BETWEEN the
+           samples, on a slice it sorted in place before.  The final frame must still be the order statistics of ALL
+           samples (`num_f64_analyze_any_schedule`): it is compared with the same `agg numfv` answer as the file run,
+           and the history with its refresh points is also sent as `agg numh` (the model's in-place machine).
+           Mostly `--reverse` (seeded/C07-analyze-ordered-flag: a stale "already sorted" flag)
   limits   a negative -n / --num / --rows / --cols must be refused as invalid usage (exit 2, no Go panic):
            before the fix bb14ba5 `rare histo -n -1` died in NewHistogram (makeslice: len out of range).
 
@@ -17,7 +23,7 @@ Samples reach the aggregators exactly as the CLI builds them: the `-e` expressio
 may contain NUL bytes and multi-byte characters (the regex `\\S+` matches them), so a NUL inside a key shifts the
 fields of the sample – the model gets the same raw element.  `--workers 1` where arrival order matters (reduce).
 """
-import csv, io, os, struct, subprocess, sys
+import csv, io, os, struct, subprocess, sys, time
 sys.path.insert(0, os.path.dirname(__file__))
 from common import build_rare, Rand
 from common import run as _run
@@ -81,8 +87,26 @@ def bits_of(v):
 
 
 class Job:
-    def __init__(self, kind, cmd, cases, check, data):
-        self.kind, self.cmd, self.cases, self.check, self.data = kind, cmd, cases, check, data
+    def __init__(self, kind, cmd, cases, check, data, feed=None):
+        self.kind, self.cmd, self.cases, self.check, self.data, self.feed = kind, cmd, cases, check, data, feed
+
+
+def run_fed(cmd, chunks, pause=0.28, timeout=60):
+    """Run cmd writing `chunks` to its stdin with a pause after each (longer than the 100 ms refresh tick)."""
+    p = subprocess.Popen(cmd, stdin=subprocess.PIPE, stdout=subprocess.PIPE, stderr=subprocess.PIPE)
+    try:
+        time.sleep(pause)  # let the first refresh hit the empty aggregator
+        for c in chunks:
+            p.stdin.write(c)
+            p.stdin.flush()
+            time.sleep(pause)
+        p.stdin.close()
+        p.stdin = None  # communicate() must not flush / close it again
+        out, err = p.communicate(timeout=timeout)
+    except Exception:
+        p.kill()
+        raise
+    return p.returncode, out, err
 
 
 def last_dump(ans):
@@ -195,6 +219,36 @@ def run_extra(ctx):
                                               ",".join(bits_of(float(q) / 100.0) for q in qs))
         jobs.append(Job("analyze", cmd, [case], check_analyze, {"qs": qs, "errors": len(vals) - len(good), "lines": len(toks), "n": len(good)}))
 
+    # ---- analyze with refreshes between the samples (stdin in chunks)
+    LIVE = [(True, [["1", "2"], ["3"]], ["50", "90"]),                       # stored 2,1 then 3
+            (True, [["5", "3", "1", "4"], ["2", "2"]], ["50", "90", "99"]),  # the seed's demo history
+            (False, [["3", "2"], ["1"], ["2.5"]], ["50"])]
+    nlive = 3 if ctx["tier"] == "quick" else 14
+    for li in range(nlive):
+        if li < len(LIVE):
+            rev, chunks, qs = LIVE[li]
+        else:
+            rev = rnd.intn(4) != 0
+            chunks = [[rnd.pick(["1", "2", "3", "4", "5", "2.5", "-1", "0", "-0", "7", "7", "x", "nan", "1e3"]) for _ in range(1 + rnd.intn(4))]
+                      for _ in range(2 + rnd.intn(2))]
+            qs = [rnd.pick(["0", "50", "90", "99", "100", "25"]) for _ in range(1 + rnd.intn(2))]
+        toks = [t.encode() for c in chunks for t in c]
+        vals = [pyfloat(t) for t in toks]
+        good = [v for v in vals if v is not None]
+        cmd = base + ["analyze", "-m", r"(\S+)", "-e", "{1}", "-x"] + (["-r"] if rev else [])
+        for q in qs:
+            cmd += ["-q", q]
+        cmd += ["--batch", "1"]
+        pbits = ",".join(bits_of(float(q) / 100.0) for q in qs)
+        case = "C07 agg numfv 1 %d %s %s" % (1 if rev else 0, ";".join(bits_of(v) for v in good) if good else ".", pbits)
+        hops = ["a"]
+        for c in chunks:
+            hops += ["s" + hexs(t.encode()) for t in c] + ["a"]
+        hcase = "C07 agg numh 1 %d %s %s" % (1 if rev else 0, ";".join(hops), pbits)
+        jobs.append(Job("analyze-live", cmd, [case, hcase], check_analyze_live,
+                        {"qs": qs, "errors": len(vals) - len(good), "lines": len(toks), "n": len(good), "chunks": chunks},
+                        feed=[("".join(t + "\n" for t in c)).encode() for c in chunks]))
+
     # ---- negative limits (the repaired set-up crash)
     fneg = os.path.join(work, "neg.txt")
     open(fneg, "wb").write(b"a x 1\nb y 2\n")
@@ -210,7 +264,10 @@ def run_extra(ctx):
     for j in jobs:
         j.answers = answers[pos:pos + len(j.cases)]
         pos += len(j.cases)
-        rc, out, err = _run(j.cmd, timeout=60)
+        if j.feed is not None:
+            rc, out, err = run_fed(j.cmd, j.feed)
+        else:
+            rc, out, err = _run(j.cmd, timeout=60)
         runs += 1
         bad = None
         if b"panic:" in err or b"goroutine " in err:
@@ -225,7 +282,8 @@ def run_extra(ctx):
                                "cmd": " ".join(repr(a) if (" " in a or "\\" in a) else a for a in j.cmd[1:]), "model_cases": j.cases,
                                "model_answers": [a[:600] for a in j.answers], "rc": rc, "stdout": out.decode("utf8", "replace")[-600:],
                                "stderr": err.decode("utf8", "replace")[-400:],
-                               "input": open(j.cmd[-1], "rb").read().decode("utf8", "replace")[:400]})
+                               "input": (repr(j.data["chunks"]) + " (stdin chunks, a refresh between them)") if j.feed is not None
+                               else open(j.cmd[-1], "rb").read().decode("utf8", "replace")[:400]})
     return {"runs": runs, "violations": violations[:5],
             "assumptions": ["e2e: files of generated `key sub inc` / number lines through the real CLI; observables are the --csv file, the piped "
                             "(snapshot) output with --noformat --nocolor and the exit status; Python float()/'%.4f' agree with strconv on the chosen spellings"]}
@@ -341,6 +399,22 @@ def check_analyze(j, rc, out, err):
         return "quantiles: CLI %r, model %r" % (qgot, qwant)
     if rc != expect_rc(j.data["errors"], j.data["lines"]):
         return "exit status %d, expected %d" % (rc, expect_rc(j.data["errors"], j.data["lines"]))
+    return None
+
+
+def check_analyze_live(j, rc, out, err):
+    """The final frame after refreshes between the samples: the file run's check against `agg numfv`, and the last view of
+    the in-place machine (`agg numh`) must show the same median / mode / quantiles."""
+    bad = check_analyze(j, rc, out, err)
+    if bad:
+        return "after refreshes between the samples %r: %s" % (j.data["chunks"], bad)
+    plain, hist = j.answers[0], j.answers[1]
+    if not hist.startswith("ok"):
+        return "model did not answer the history: %r" % hist[:300]
+    last = hist.split(" | ")[-1]
+    tail = plain.split(" | ")[-1]
+    if not last.startswith("A ") or last[2:].split(" ranks[")[0] != tail:
+        return "model: in-place machine %r differs from the plain run %r" % (last, tail)
     return None
 
 
